@@ -28,7 +28,8 @@ def main():
     dst = os.path.join(VERIF, "seeded", sid)
     os.makedirs(dst, exist_ok=True)
     for f in ("patch.diff", "demo.py", "meta.json"):
-        shutil.copy(os.path.join(src, f), os.path.join(dst, f))
+        if os.path.abspath(src) != os.path.abspath(dst):
+            shutil.copy(os.path.join(src, f), os.path.join(dst, f))
     patch = os.path.join(dst, "patch.diff")
     meta = json.load(open(os.path.join(dst, "meta.json")))
     wt = tempfile.mkdtemp(prefix="evalwt_")
